@@ -12,6 +12,7 @@ E2: explicit-state search over sequences of evaluations of a pool of statements
 against one shared parent context and one *reused* child context: the state
 (snapshot of the chain + statement trees) must stay the initial state up to `$`.
 """
+import collections
 import copy
 import itertools
 
@@ -36,6 +37,13 @@ BOUNDS = {'quick': 'all definitions, positions of kind iterable/sequence/iterato
 ENV_FUNCS = ('now', 'random', 'localtz', 'utctz')
 
 
+class Rows(list):
+    """A host list subclass (hosts pass their own sequence types)."""
+
+
+Record = collections.namedtuple('Record', 'name tags')
+
+
 def host_values(kind):
     """Fresh mutable host values suitable for a parameter kind: [(label, maker)]."""
     lst = ('list', lambda: [3, 1, 2, [1, 2], {'k': [5]}])
@@ -45,15 +53,18 @@ def host_values(kind):
     dct = ('dict', lambda: {'a': 1, 'b': [1, 2], 'c': {'d': [7]}})
     st = ('set', lambda: {1, 2, 3})
     llist = ('listlist', lambda: [[1, 2], [3], []])
+    rows = ('rows-subclass', lambda: Rows([[1, 2], [3]]))
+    rec = ('namedtuple', lambda: Record('a', ['x', 'y']))
+    odd = ('oddkeys', lambda: {'1st': 'x', '__p': [1], 'a': 1})
     if kind in ('iterable', 'sequence', 'iterator', 'any'):
-        out = [lst, ilist, slist, plist, llist]
+        out = [lst, ilist, slist, plist, llist, rows, rec]
         if kind in ('iterable', 'any'):
             out.append(st)
         if kind == 'any':
             out.append(dct)
         return out
     if kind == 'mapping':
-        return [dct, ('intdict', lambda: {'a': 1, 'b': 2})]
+        return [dct, ('intdict', lambda: {'a': 1, 'b': 2}), odd]
     if kind == 'set':
         return [st]
     return []
